@@ -165,6 +165,19 @@ func h13ReadDir(dir string) ([]os.FileInfo, error) {
 	return out, nil
 }
 
+// h13Stat stands in for os.Stat / os.Lstat (engine side, by redirect) over the same model.
+func h13Stat(name string) (os.FileInfo, error) {
+	if _, ok := h13Dirs[name]; ok {
+		return h13FI{filepath.Base(name), true}, nil
+	}
+	for _, f := range h13Dirs[filepath.Dir(name)] {
+		if f.name == filepath.Base(name) {
+			return f, nil
+		}
+	}
+	return nil, errors.New("stat: no such file or directory")
+}
+
 // H13b: the file fetched for a module that is not loaded: the first search-path directory
 // holding a candidate; name.yang, else the name@date.yang with the latest date; never a file
 // of a differently named module.
@@ -323,12 +336,14 @@ func H13c() {
 	main := `module x { namespace "urn:x"; prefix x; ` + inc + part[0] + `}`
 	s1 := `submodule s1 { belongs-to x { prefix x; } ` + s1inc + part[1] + `}`
 	s2 := `submodule s2 { belongs-to x { prefix x; } ` + part[2] + `}`
+	// an importer that refers to the module's typedef, grouping and identities through its prefix
+	u := `module u { namespace "urn:u"; prefix u; import x { prefix xx; } leaf ul { type xx:t; } container uc { uses xx:g; } identity uid { base xx:base-id; } leaf ur { type identityref { base xx:derived; } } }`
 	note(main + s1 + s2)
-	msF, le := hLoad(flat)
+	msF, le := hLoad(flat, u)
 	check(len(le) == 0, "flat module parses")
 	ef := msF.Process()
 	check(len(ef) == 0, "flat module processes")
-	msS, le2 := hLoad(main, s1, s2)
+	msS, le2 := hLoad(main, s1, s2, u)
 	check(len(le2) == 0, "split module parses")
 	es := msS.Process()
 	reach("compared")
@@ -339,5 +354,5 @@ func H13c() {
 		return
 	}
 	hWF(msS)
-	check(hDumpTrees(msS) == hDumpTrees(msF), "an included submodule contributes its data nodes, typedefs, groupings and identities exactly as if they were written in the module")
+	check(hDumpTrees(msS) == hDumpTrees(msF), "an included submodule contributes its data nodes, typedefs, groupings and identities exactly as if they were written in the module (seen from the module and from an importer)")
 }
